@@ -1,16 +1,130 @@
+import ActixNet.Model.Worker
 import Driver.Util
-/-! Engine `worker`: line protocol (stub — filled in by the owner of this engine). -/
+/-! Engine `worker`: line protocol for the `ServerWorker::poll` model (`ActixNet.Worker`), C06/C07. -/
 namespace Driver.Worker
-open Driver
+open ActixNet ActixNet.Worker Driver
 
 structure State where
-  dummy : Nat := 0
+  s : St := { n := 0, svc := fun _ => {}, timeout := 0 }
+  started : Bool := false
 
 def init : State := {}
 
+def kv (ws : List String) (key : String) : Option String :=
+  ws.findSome? fun w => if w.startsWith (key ++ "=") then some ((w.drop (key.length + 1)).toString) else none
+
+def parseScript (t : String) : Option (List Rd) :=
+  if t == "." then some [] else
+  t.toList.mapM fun c => if c == 'R' then some Rd.ready else if c == 'P' then some Rd.pending else if c == 'E' then some Rd.err else none
+
+/-- `<fpend><+|-><script>` -/
+def parseInc (t : String) : Option Inc :=
+  let ds := t.toList.takeWhile Char.isDigit
+  match t.toList.drop ds.length with
+  | sg :: rest =>
+    if ds.isEmpty then none else
+    match (String.ofList ds).toNat?, parseScript (String.ofList rest) with
+    | some k, some sc => if sg == '+' then some { fpend := k, fok := true, script := sc } else if sg == '-' then some { fpend := k, fok := false, script := sc } else none
+    | _, _ => none
+  | [] => none
+
+def parseSvc (t : String) : Option Svc :=
+  match t.splitOn "/" with
+  | [] => none
+  | sc :: incs =>
+    match parseScript sc, incs.mapM parseInc with
+    | some sc, some is => some { script := sc, future := is }
+    | _, _ => none
+
+def parseSvcs (ws : List String) (n : Nat) : Option (List Svc) :=
+  (List.range n).mapM fun i => match kv ws s!"s{i}" with
+    | some t => parseSvc t
+    | none => some {}
+
+def bit (b : Bool) : String := if b then "1" else "0"
+
+def showRd : Rd → String | .ready => "R" | .pending => "P" | .err => "E"
+def showFac : FacRes → String | .pending => "P" | .ok => "O" | .err => "E"
+
+def showEv : Ev → Option String
+  | .pollReady i inc r => some s!"r{i}.{inc}{showRd r}"
+  | .call tok inc c => some s!"c{tok}.{inc}#{c.1}"
+  | .createService i => some s!"n{i}"
+  | .facPoll i r => some s!"f{i}{showFac r}"
+  | _ => none
+
+def replyOf : Ev → Option (Nat × String)
+  | .reply k b => some (k, s!"{k}:{bit b}")
+  | .replyGone k => some (k, s!"{k}:x")
+  | _ => none
+
+def closedOf : Ev → Option Nat
+  | .released c => some c.1
+  | .dropped c => some c.1
+  | _ => none
+
+def insertBy (x : Nat × String) : List (Nat × String) → List (Nat × String)
+  | [] => [x]
+  | y :: t => if x.1 ≤ y.1 then x :: y :: t else y :: insertBy x t
+
+def showFault : Fault → String
+  | .fuel => "spin" | .factoryErr => "panic" | .badToken => "panic" | .underflow => "panic"
+
+def pollObs (old new : St) : String :=
+  let evs := new.log.drop old.log.length
+  let ev := ",".intercalate (evs.filterMap showEv)
+  match new.fault with
+  | some f => s!"ev=[{ev}] ret={showFault f}"
+  | none =>
+    let reps := (evs.filterMap replyOf).foldr insertBy []
+    let closed := (evs.filterMap closedOf).mergeSort
+    s!"ev=[{ev}] ret={if new.finished then "D" else "P"} replies=[{",".intercalate (reps.map (·.2))}] " ++
+    s!"closed=[{",".intercalate (closed.map toString)}] raw={new.raw}"
+
 def step (st : State) (line : String) : State × String :=
-  match words line with
-  | "case" :: _ => (init, "ok")
-  | _ => (st, "bad-op")
+  let ws := words line
+  match ws with
+  | "case" :: _ =>
+    let n := ((kv ws "n").bind (·.toNat?)).getD 1
+    let timeout := ((kv ws "timeout").bind (·.toNat?)).getD 0
+    match parseSvcs ws n with
+    | some svcs =>
+      ({ s := ActixNet.Worker.init { n := n, timeout := timeout, svcs := fun i => svcs.getD i {} }, started := true }, "ok")
+    | none => ({ st with started := false }, "bad-case")
+  | ["k-worker"] =>
+    (st, s!"tick-first={Src.wkTickFirstMs} tick-next={Src.wkTickNextMs} init={Src.wcInit}")
+  | ["k-timedout", e, t] => match e.toNat?, t.toNat? with
+    | some e, some t => (st, bit (Src.wkTimedOut e t))
+    | _, _ => (st, "bad-op")
+  | ["k-total", v] => match v.toNat? with
+    | some v => if v = 0 then (st, "panic") else (st, toString (Src.wcTotal v))
+    | none => (st, "bad-op")
+  | _ =>
+    if !st.started then (st, "bad-op") else
+    let op : Option Op := match ws with
+      | ["conn", t] => t.toNat?.map .conn
+      | ["send", t] => t.toNat?.map .send
+      | ["inc"] => some .inc
+      | ["close"] => some .closeChan
+      | ["stop", "g"] => some (.stop true)
+      | ["stop", "f"] => some (.stop false)
+      | ["finish", c] => c.toNat?.map .finish
+      | ["advance", ms] => ms.toNat?.bind fun ms => if ms = 0 then none else some (.advance ms)
+      | ["poll"] => some (.poll 1000000)
+      | _ => none
+    match op with
+    | none => (st, "bad-op")
+    | some op =>
+      let r := ActixNet.Worker.step st.s op
+      let st' := { st with s := r.1 }
+      match r.2 with
+      | .bad => (st, "bad-op")
+      | .ok => (st', "ok")
+      | .refused => (st', "refused")
+      | .conn id w => (st', s!"ok c{id} woke={bit w}")
+      | .closed w => (st', s!"ok woke={bit w}")
+      | .stop k w => (st', s!"ok s{k} woke={bit w} reply={if st.s.finished then "x" else "-"}")
+      | .advanced w => (st', s!"ok woke={bit w}")
+      | .polled => (st', pollObs st.s st'.s)
 
 end Driver.Worker
